@@ -119,6 +119,7 @@ theorem Stack.read_spec (n : Nat) (hn : 0 < n) (st : Stack) (b : Base) (hp : st.
           simp only [Stack.content]
           exact ⟨this.1, by rw [this.2.1, this.2.2]⟩
   | bufio buffered =>
+    have hn0 : ¬ n = 0 := by omega
     have hterm : ∀ k, (b.read k).2.term = b.term := by
       intro k; unfold Base.read
       cases hc : b.chunks with
@@ -127,31 +128,31 @@ theorem Stack.read_spec (n : Nat) (hn : 0 < n) (st : Stack) (b : Base) (hp : st.
     by_cases hb : buffered = []
     · subst hb
       by_cases hsz : bufioSize ≤ n
-      · refine ⟨by simp [Stack.read, hsz, Stack.poisoned], by simpa [Stack.read, hsz] using hterm n, ?_, ?_⟩
+      · refine ⟨by simp [Stack.read, hn0, ↓reduceIte, hsz, Stack.poisoned], by simpa [Stack.read, hn0, ↓reduceIte, hsz] using hterm n, ?_, ?_⟩
         · intro h
-          simp only [Stack.read, List.isEmpty_nil, hsz, ite_true, Bool.not_true, Bool.false_eq_true,
+          simp only [Stack.read, hn0, ↓reduceIte, List.isEmpty_nil, hsz, ite_true, Bool.not_true, Bool.false_eq_true,
             ite_false] at h ⊢
           have := Base.read_none n hn b h
           simp only [Stack.content, Stack.measure, List.nil_append, List.length_nil, Nat.zero_add]
           exact ⟨this.1, this.2.1⟩
         · intro e h
-          simp only [Stack.read, List.isEmpty_nil, hsz, ite_true, Bool.not_true, Bool.false_eq_true,
+          simp only [Stack.read, hn0, ↓reduceIte, List.isEmpty_nil, hsz, ite_true, Bool.not_true, Bool.false_eq_true,
             ite_false] at h ⊢
           have := Base.read_some n b e h
           simp only [Stack.content, List.nil_append]
           exact ⟨this.1, by rw [this.2.1, this.2.2]⟩
       · by_cases hd : (b.read bufioSize).1.data.isEmpty = true
-        · refine ⟨by simp [Stack.read, hsz, hd, Stack.poisoned],
-            by simpa [Stack.read, hsz, hd] using hterm bufioSize, ?_, ?_⟩
+        · refine ⟨by simp [Stack.read, hn0, ↓reduceIte, hsz, hd, Stack.poisoned],
+            by simpa [Stack.read, hn0, ↓reduceIte, hsz, hd] using hterm bufioSize, ?_, ?_⟩
           · intro h
-            simp only [Stack.read, List.isEmpty_nil, hsz, hd, ite_true, Bool.not_true,
+            simp only [Stack.read, hn0, ↓reduceIte, List.isEmpty_nil, hsz, hd, ite_true, Bool.not_true,
               Bool.false_eq_true, ite_false] at h ⊢
             have := Base.read_none bufioSize (by decide) b h
             have hd' : (b.read bufioSize).1.data = [] := by simpa using hd
             simp only [Stack.content, Stack.measure, List.nil_append, List.length_nil, Nat.zero_add]
             refine ⟨by rw [this.1, hd']; rfl, this.2.1⟩
           · intro e h
-            simp only [Stack.read, List.isEmpty_nil, hsz, hd, ite_true, Bool.not_true,
+            simp only [Stack.read, hn0, ↓reduceIte, List.isEmpty_nil, hsz, hd, ite_true, Bool.not_true,
               Bool.false_eq_true, ite_false] at h ⊢
             have := Base.read_some bufioSize b e h
             simp only [Stack.content, List.nil_append]
@@ -161,10 +162,10 @@ theorem Stack.read_spec (n : Nat) (hn : 0 < n) (st : Stack) (b : Base) (hp : st.
             cases he : (b.read bufioSize).1.err with
             | none => rfl
             | some e => have := (Base.read_some bufioSize b e he).2.2; simp [this] at hd0
-          refine ⟨by simp [Stack.read, hsz, hd0, Stack.poisoned],
-            by simpa [Stack.read, hsz, hd0] using hterm bufioSize, ?_, ?_⟩
+          refine ⟨by simp [Stack.read, hn0, ↓reduceIte, hsz, hd0, Stack.poisoned],
+            by simpa [Stack.read, hn0, ↓reduceIte, hsz, hd0] using hterm bufioSize, ?_, ?_⟩
           · intro _
-            simp only [Stack.read, List.isEmpty_nil, hsz, hd0, ite_true, Bool.not_true,
+            simp only [Stack.read, hn0, ↓reduceIte, List.isEmpty_nil, hsz, hd0, ite_true, Bool.not_true,
               Bool.false_eq_true, ite_false]
             have := Base.read_none bufioSize (by decide) b herr
             simp only [Stack.content, Stack.measure, List.nil_append, List.length_nil, Nat.zero_add,
@@ -192,16 +193,16 @@ theorem Stack.read_spec (n : Nat) (hn : 0 < n) (st : Stack) (b : Base) (hp : st.
                     omega
               omega
           · intro e h
-            simp [Stack.read, hsz, hd0] at h
+            simp [Stack.read, hn0, ↓reduceIte, hsz, hd0] at h
     · have hne : buffered.isEmpty = false := by cases buffered <;> simp_all
-      refine ⟨by simp [Stack.read, hne, Stack.poisoned], by simp [Stack.read, hne], ?_, ?_⟩
+      refine ⟨by simp [Stack.read, hn0, ↓reduceIte, hne, Stack.poisoned], by simp [Stack.read, hn0, ↓reduceIte, hne], ?_, ?_⟩
       · intro _
-        simp only [Stack.read, hne, Bool.not_false, ite_true, Stack.content, Stack.measure,
+        simp only [Stack.read, hn0, ↓reduceIte, hne, Bool.not_false, ite_true, Stack.content, Stack.measure,
           List.length_drop]
         refine ⟨by first | exact tad n buffered _ | exact tad' n buffered _, ?_⟩
         have : 0 < buffered.length := by cases buffered <;> simp_all
         omega
-      · intro e h; simp [Stack.read, hne] at h
+      · intro e h; simp [Stack.read, hn0, ↓reduceIte, hne] at h
   | sniffer buf poison =>
     have hpo : poison = false := by simpa [Stack.poisoned] using hp
     subst hpo
@@ -313,7 +314,8 @@ theorem Stack.read_empty_content (st : Stack) (b : Base) (hc : st.content = [])
     have : bf = [] := by simpa [Stack.content] using hc
     subst this
     have : bufioSize ≤ relayBuf := by decide
-    simp [Stack.read, this, Stack.content]
+    have h0 : ¬ relayBuf = 0 := by decide
+    simp [Stack.read, this, h0, Stack.content]
   | sniffer bf p =>
     have : bf = [] := by simpa [Stack.content] using hc
     subst this
